@@ -92,7 +92,8 @@ class VG(object):
             ext = size.ext
         cap = cfg.max_len
         cands = [x for x in LEN_EDGES if x <= cap]
-        mid = cfg.mid and mid_ok and self.chance(cfg.mid_rate)
+        # a SIZE whose upper bound lies beyond max_len is there for its long values: use them half of the time
+        mid = cfg.mid and mid_ok and self.chance(50 if (hi is not None and cap < hi <= 1000) else cfg.mid_rate)
         if mid:
             cands = cands + [x for x in MID_LENS if x > cap]
         big = cfg.big and big_ok and self.chance(12)
@@ -107,6 +108,11 @@ class VG(object):
                                                           (big and (x in BIG_LENS or x in (hi, hi - 1)) and x <= 70001))]
         if not ok:
             return lo
+        if mid or big:
+            # the long candidates were asked for: take one of them most of the time
+            longs = [x for x in ok if x > cap]
+            if longs and self.chance(75):
+                return self.pick(longs)
         if self.chance(60):
             return self.pick(ok)
         top = hi if hi is not None else lo + cap
